@@ -223,6 +223,32 @@ CLAIMED = {
         "dynamic symbolic execution of the real Python code (vx) + z3 Bool/LIA over a symbolic file system",
         "DESIGN.md section 4 C19",
     ),
+    "C03": (
+        "exploration",
+        "Concolic: the solver supplies one concrete schedule per feasible path of the real Readout validation / step computation (1..3 (5) "
+        "readouts), crossed with 12 choice vectors (destructive flag, image dtype uint8..uint64, float dtype float16..64, 2-D / 3-wavelength "
+        "photon, which optional buckets are written, debug); each witness is run end-to-end through the real pyxel.run_mode in both result "
+        "layouts (and with debug) with a last-in-step probe snapshotting every bucket, and the returned DataTree is compared slice by slice: "
+        "values, one slice per readout, absolute-time labels, row/column labels, image dtype, flat == hierarchical, debug does not change the "
+        "result and records the changed bucket. The comparison is concrete: this is exploration on solver-chosen inputs, not a proof.",
+        "xarray / pandas cannot hold symbolic values, so C03 is not decided symbolically; every step writes the image bucket (real pyxel "
+        "cannot merge >= 2 steps otherwise).",
+        "concolic input generation with vx + z3 (one witness per path), concrete end-to-end comparison",
+        "DESIGN.md section 4 C03",
+    ),
+    "C17": (
+        "model_checking",
+        "The real exposure loop and the real flux-integrating models (uniform / rectangular / elliptic illumination, load_image, stripe_pattern, "
+        "load_charge, simple_conversion without sampling, simple_collection; 6 model sets) run on symbolic schedules: start, end and interior "
+        "readout times, levels, file contents, quantum efficiency (time scales symbolic in the per-model sets). Non-destructive: final pixel frame of "
+        "one readout at `end` == final frame of n readouts with symbolic interior points (n <= 4 quick, <= 12 thorough) and == rate x (end - start); "
+        "destructive: frame i == rate x (t_i - t_(i-1)) and scaling all intervals by a symbolic lambda scales every frame by lambda. Every path "
+        "witness of the split schedule is replayed through the real run_mode with real files.",
+        "Real arithmetic: in IEEE the equality holds up to rounding only. Noise-free dark_current goes through astropy Quantity and is compared "
+        "concretely (two schedules) only; stripe rotation (skimage) outside; load_cropped_and_aligned_image is a stub returning arbitrary content.",
+        "dynamic symbolic execution of the real Python code (vx) + z3 NRA identities, two-schedule comparison, path-witness replay",
+        "DESIGN.md section 4 C17",
+    ),
 }
 
 NOT_APPLICABLE = {
